@@ -1,5 +1,10 @@
 package engine
 
+import (
+	"sort"
+	"sync"
+)
+
 // BFS is the explicit-state search (E1): breadth-first over the real
 // transition function, de-duplicated by a canonical key.
 type BFS[S any] struct {
@@ -10,6 +15,8 @@ type BFS[S any] struct {
 	// Expand applies every enabled transition to a *copy* of s by calling the
 	// implementation, evaluates the oracle (reporting violations itself) and
 	// emits the successors. path is the label sequence that reached s.
+	// With Parallel > 1 it must be safe to call concurrently for different
+	// states of the same group.
 	Expand func(s S, path []string, emit func(label string, next S))
 	// MaxDepth bounds the depth (0 = run to fixpoint).
 	MaxDepth int
@@ -17,11 +24,23 @@ type BFS[S any] struct {
 	Report   *Report
 	// MaxStates is a safety valve (0 = none); hitting it clears exhaustive.
 	MaxStates int
+	// Parallel > 1 expands the states of one level concurrently, group by
+	// group (Group/BeforeGroup let a check set process-global seams such as
+	// the virtual clock once per group). Successors are merged in state order,
+	// so the search is deterministic.
+	Parallel    int
+	Group       func(S) int
+	BeforeGroup func(g int)
 }
 
 type bfsNode[S any] struct {
 	s    S
 	path []string
+}
+
+type bfsSucc[S any] struct {
+	label string
+	s     S
 }
 
 // Run explores and fills the report's States/Transitions/MaxDepth. It returns
@@ -43,34 +62,88 @@ func (b *BFS[S]) Run() bool {
 			fix = false
 			break
 		}
-		var next []bfsNode[S]
-		for _, n := range frontier {
+		// group the level
+		groups := map[int][]int{}
+		var gids []int
+		for i, n := range frontier {
+			g := 0
+			if b.Group != nil {
+				g = b.Group(n.s)
+			}
+			if _, ok := groups[g]; !ok {
+				gids = append(gids, g)
+			}
+			groups[g] = append(groups[g], i)
+		}
+		sort.Ints(gids)
+		succs := make([][]bfsSucc[S], len(frontier))
+		aborted := false
+		for _, g := range gids {
+			if b.BeforeGroup != nil {
+				b.BeforeGroup(g)
+			}
+			idx := groups[g]
+			par := b.Parallel
+			if par < 1 {
+				par = 1
+			}
+			var wg sync.WaitGroup
+			next := make(chan int, len(idx))
+			for _, i := range idx {
+				next <- i
+			}
+			close(next)
+			for w := 0; w < par; w++ {
+				wg.Add(1)
+				go func() {
+					defer wg.Done()
+					for i := range next {
+						if (b.Ctx != nil && b.Ctx.Expired()) || b.Report.tooMany() {
+							continue
+						}
+						n := frontier[i]
+						var local []bfsSucc[S]
+						b.Expand(n.s, n.path, func(label string, ns S) {
+							local = append(local, bfsSucc[S]{label, ns})
+						})
+						succs[i] = local
+					}
+				}()
+			}
+			wg.Wait()
 			if b.Ctx != nil && b.Ctx.Expired() {
 				b.Report.Incomplete("internal deadline reached during BFS")
-				b.Report.States = int64(len(seen))
-				return false
+				aborted = true
+				break
 			}
-			if len(b.Report.Violations) >= 20 {
-				b.Report.States = int64(len(seen))
-				return false
+			if b.Report.tooMany() {
+				aborted = true
+				break
 			}
-			b.Expand(n.s, n.path, func(label string, ns S) {
+		}
+		var next []bfsNode[S]
+		for i, n := range frontier {
+			for _, su := range succs[i] {
 				b.Report.Transitions++
 				b.Report.Traces++
-				k := b.Key(ns)
+				k := b.Key(su.s)
 				if seen[k] {
-					return
+					continue
 				}
 				if b.MaxStates > 0 && len(seen) >= b.MaxStates {
 					fix = false
-					return
+					continue
 				}
 				seen[k] = true
 				p := make([]string, len(n.path)+1)
 				copy(p, n.path)
-				p[len(n.path)] = label
-				next = append(next, bfsNode[S]{ns, p})
-			})
+				p[len(n.path)] = su.label
+				next = append(next, bfsNode[S]{su.s, p})
+			}
+		}
+		if aborted {
+			b.Report.States = int64(len(seen))
+			return false
 		}
 		frontier = next
 		depth++
